@@ -113,6 +113,23 @@ func c11Graph(c *c11Case) (*gen.Graph, map[string]string) {
 		g.Connect(xm, c1, nil)
 		g.Connect(c1, t1, nil)
 		g.Connect(t1, e, nil)
+	case "insub":
+		// the catch event sits inside an embedded sub-process
+		t0, sp := g.Add(gen.Task, "t0", ""), g.Add(gen.Sub, "S", "")
+		is := g.Add(gen.Start, "is", "S")
+		n := g.Add(gen.Catch, "c1", "S")
+		n.Events = []gen.EventDef{c11Def(c.Kind, "r1")}
+		refs["c1"] = "r1"
+		t1 := g.Add(gen.Task, "t1", "S")
+		ie := g.Add(gen.End, "ie", "S")
+		t2, e := g.Add(gen.Task, "t2", ""), g.Add(gen.End, "end", "")
+		g.Connect(s, t0, nil)
+		g.Connect(t0, sp, nil)
+		g.Connect(is, n, nil)
+		g.Connect(n, t1, nil)
+		g.Connect(t1, ie, nil)
+		g.Connect(sp, t2, nil)
+		g.Connect(t2, e, nil)
 	case "never":
 		x := g.Add(gen.Xor, "x", "")
 		cn, tn := catch("cn", "r2"), g.Add(gen.Task, "tn", "")
@@ -152,6 +169,8 @@ func c11Alphabet(shape string) []string {
 		return []string{"e:r1", "e:zz", "x:r1", "a:t0", "a:t1"}
 	case "merge":
 		return []string{"e:r1", "e:zz", "a:t0", "a:t2", "a:t1"}
+	case "insub":
+		return []string{"e:r1", "e:zz", "x:r1", "a:t0", "a:t1"}
 	}
 	return nil
 }
@@ -171,7 +190,7 @@ func c11Cases(tier string, seed uint64) []fw.Case {
 	rng := fw.NewRng(seed, "C11")
 	var cs []fw.Case
 	kinds := []string{"signal", "message", "messageop"}
-	for si, shape := range []string{"seq", "par", "twin", "behind", "never", "shared", "merge"} {
+	for si, shape := range []string{"seq", "par", "twin", "behind", "never", "shared", "merge", "insub"} {
 		alpha := c11Alphabet(shape)
 		// all histories up to length 4 over the events (answers are interleaved by PRNG below)
 		var hs [][]string
@@ -418,7 +437,7 @@ func init() {
 			v.Nontrivial = ne > 0
 			return v
 		},
-		Rule:        "processes with catch events in sequence, in parallel branches, two listeners for one event, two tokens waiting at one catch event (together, or one after the other was released), behind a pending task, on a branch never taken; signal / message / message-with-operation definitions; all histories of length <= 4 (quick: length-4 strided) and PRNG histories of length 5..8 over {matching event per listener, non-matching event, task answers}, events delivered before, while and after the listeners are armed; burst histories (every history of length <= 2 followed by 12 non-matching events and the awaited one, or 6 copies of the awaited one, handed over back to back from one goroutine without letting the instance settle: more than a node's inbox holds); after every step the pending requests must equal the reference (armed matching listeners continue exactly once, nothing else reacts) and no ConsumeEvent caller may still be blocked; non-trivial = history delivers at least one event; distinct = descriptor hash",
+		Rule:        "processes with catch events in sequence, in parallel branches, two listeners for one event, two tokens waiting at one catch event (together, or one after the other was released), behind a pending task, on a branch never taken, inside an embedded sub-process; signal / message / message-with-operation definitions; all histories of length <= 4 (quick: length-4 strided) and PRNG histories of length 5..8 over {matching event per listener, non-matching event, task answers}, events delivered before, while and after the listeners are armed; burst histories (every history of length <= 2 followed by 12 non-matching events and the awaited one, or 6 copies of the awaited one, handed over back to back from one goroutine without letting the instance settle: more than a node's inbox holds); after every step the pending requests must equal the reference (armed matching listeners continue exactly once, nothing else reacts) and no ConsumeEvent caller may still be blocked; non-trivial = history delivers at least one event; distinct = descriptor hash",
 		Assumptions: []string{"a token waiting at a catch event is one listener: two tokens at one catch event both continue on one matching event"},
 	})
 }
